@@ -5,6 +5,21 @@ V = os.path.dirname(os.path.dirname(os.path.abspath(__file__)))
 ALL = ["C%02d" % i for i in range(1, 21)]
 
 CHECKS = {
+ "C01": dict(
+   technique="TLA+ frame-format specification (Frame.tla); TLC enumerates frame shapes (FrameGen), every shape is marshalled/unmarshalled by the real code; TLC validates recorded round-trip traces",
+   text="TLC checks on the specification that Decode(Encode(v)) is the wire image of v for every frame shape (4 data MTypes x 16 FCtrl x FOpts length 0..15 x FPort absent/0/1/255 x FRMPayload lengths x join/rejoin/join-accept/CFList/proprietary shapes); each shape and seeded random frame values (valid and deliberately invalid) are run through MarshalBinary/MarshalText/UnmarshalBinary/UnmarshalText/Decode*ToMACCommands/Encrypt+DecryptJoinAccept and every recorded event is validated against the specification's Encode/WireImage/SpecValid.",
+   note="Trusted: TLC, Frame.tla/MACCommands.tla transcription of LoRaWAN 1.1 sec. 4-6, projection tables. Invalid values that the encoder accepts are DON'T-CARE.",
+   ref="3/C01"),
+ "C06": dict(
+   technique="independent table-driven TLA+ wire-format model; TLC-enumerated values and bytes (exhaustive for <=2-byte payloads) executed on the real encoders/decoders; TLC trace validation",
+   text="The MAC-command layouts (field order, widths, kinds, RFU rows) and the frame/join/CFList formats are TLA+ tables written from the LoRaWAN text. TLC enumerates all values of <=1-byte (quick) / <=2-byte (thorough) payloads and boundary palettes of longer ones; each is encoded by the real library and each byte string is decoded by it; results must equal the specification's Encode/DecodeBits (RFU ignored). Frame headers, join payloads and CFLists are checked through the FrameGen shapes and byte shapes.",
+   note="Trusted: TLC, the TLA+ tables (self-consistency invariants: widths sum to size, Decode o Encode = id), projection tables. DutyCycleReq is treated as one byte (legacy 255).",
+   ref="3/C06"),
+ "C08": dict(
+   technique="TLA+ Decode/Encode of Frame.tla; canonicity is a TLC-checked theorem of the specification over guard-boundary byte shapes, each shape and seeded mutated byte strings replayed on the real decoder/encoder",
+   text="TLC shows on the specification that every byte shape it decodes re-encodes identically (8 MTypes x MACPayload length 0..40 x FOptsLen nibble x FPort byte x rejoin type); every shape plus seeded uniform strings and structure-aware mutations of valid frames go through UnmarshalBinary -> MarshalBinary -> UnmarshalBinary on the real code and TLC validates: accepted and MHDR-RFU-zero => re-encoding succeeds and is byte-identical, and decodes again to an equal frame.",
+   note="Trusted: TLC, Frame.tla, projection. Coverage-guided fuzzing is not used (DESIGN sec. 4).",
+   ref="3/C08"),
  "C07": dict(
    technique="TLA+ table-driven MAC-command/registry specification; TLC enumerates values and registration histories (replayed on the real code) and validates recorded traces",
    text="TLC exhaustively explores the MAC-command tables (all values of <=1/2-byte payloads, boundary palettes for longer ones) and all registration histories of the Registry model (self-delimiting, direction-only invariants); every explored value/history is executed on the real library (histories in fresh processes) and, with seeded full-domain values and command streams, validated event by event against the trace specifications.",
